@@ -448,6 +448,22 @@ class PathAnalysis:
                 if cd:
                     a_tok, phi = cd
                     w.extra[a_tok] = w.extra.get(a_tok, frozenset()) | {Not(phi)}
+            # `any(PHI(x) for x in A)` false  =>  every element of A satisfies not PHI;  `all(PHI(x) for x in A)` true  =>  PHI
+            if isinstance(part, ast.Call) and isinstance(part.func, ast.Name) and part.func.id in ("any", "all") and len(part.args) == 1 and not part.keywords \
+                    and isinstance(part.args[0], (ast.GeneratorExp, ast.ListComp)) and len(part.args[0].generators) == 1 \
+                    and (part.func.id == "any") == (not ppol):
+                g = part.args[0].generators[0]
+                if isinstance(g.target, ast.Name) and isinstance(g.iter, ast.Name) and not g.is_async:
+                    a_tok = w.token(g.iter.id)
+                    cw = w.clone()
+                    tok = self.bump(cw, g.target.id, g, "i")
+                    body = self.formula(part.args[0].elt, cw)
+                    cond = And(*[self.formula(c, cw) for c in g.ifs]) if g.ifs else None
+                    if part.func.id == "any":
+                        phi = Not(body) if cond is None else Or(Not(cond), Not(body))
+                    else:
+                        phi = body if cond is None else Or(Not(cond), body)
+                    w.extra[a_tok] = w.extra.get(a_tok, frozenset()) | {subst(phi, lambda s_: replace_term(s_, tok, ELEM))}
             # y is not None with y = D.get(K)
             if isinstance(part, ast.Compare) and len(part.ops) == 1 and isinstance(part.left, ast.Name) \
                     and isinstance(part.comparators[0], ast.Constant) and part.comparators[0].value is None:
